@@ -44,6 +44,8 @@ static DE_FAIL_AT: AtomicUsize = AtomicUsize::new(0);
 static SER_COUNT: AtomicUsize = AtomicUsize::new(0);
 static SER_FAIL_AT: AtomicUsize = AtomicUsize::new(0);
 static FIRED: AtomicUsize = AtomicUsize::new(0);
+static DROP_COUNT: AtomicUsize = AtomicUsize::new(0);
+static DROP_PANIC_AT: AtomicUsize = AtomicUsize::new(0);
 
 /// Payload of a panic injected by a token.
 #[derive(Debug, Clone, Copy, PartialEq, Eq)]
@@ -57,7 +59,7 @@ pub const INJECTED_ENCODE_FAILURE: &str = "injected-encode-failure";
 
 /// Clears counters and disarms all faults.
 pub fn plan_reset() {
-    for a in [&CLONE_COUNT, &CLONE_PANIC_AT, &DE_COUNT, &DE_FAIL_AT, &SER_COUNT, &SER_FAIL_AT, &FIRED] {
+    for a in [&CLONE_COUNT, &CLONE_PANIC_AT, &DE_COUNT, &DE_FAIL_AT, &SER_COUNT, &SER_FAIL_AT, &FIRED, &DROP_COUNT, &DROP_PANIC_AT] {
         a.store(0, Relaxed);
     }
 }
@@ -66,6 +68,31 @@ pub fn plan_reset() {
 pub fn plan_clone_panic(n: usize) {
     CLONE_COUNT.store(0, Relaxed);
     CLONE_PANIC_AT.store(n, Relaxed);
+}
+
+/// The destructor of the n-th (1-based) token destroyed from now on panics, after the destruction
+/// has been recorded. One shot: it disarms itself when it fires, and never fires while the thread
+/// is already unwinding (that would abort the process). 0 disarms.
+pub fn plan_drop_panic(n: usize) {
+    DROP_COUNT.store(0, Relaxed);
+    DROP_PANIC_AT.store(n, Relaxed);
+}
+
+pub fn drop_count() -> usize {
+    DROP_COUNT.load(Relaxed)
+}
+
+fn on_drop() {
+    let at = DROP_PANIC_AT.load(Relaxed);
+    if at == 0 {
+        return;
+    }
+    let n = DROP_COUNT.fetch_add(1, Relaxed) + 1;
+    if n == at && !std::thread::panicking() {
+        DROP_PANIC_AT.store(0, Relaxed);
+        FIRED.fetch_add(1, Relaxed);
+        std::panic::panic_any(InjectedPanic { what: "drop", n });
+    }
 }
 
 /// The n-th (1-based) token decode from now on fails. 0 disarms.
@@ -160,6 +187,7 @@ macro_rules! ledger_token {
         impl Drop for $name {
             fn drop(&mut self) {
                 ledger::destroy(self.obs().inst, $class);
+                on_drop();
             }
         }
 
@@ -284,6 +312,7 @@ macro_rules! tokz {
         impl Drop for $name {
             fn drop(&mut self) {
                 ledger::zst_destroy($class);
+                on_drop();
             }
         }
         impl Clone for $name {
